@@ -193,6 +193,10 @@ def judge(case_argv, res, ctors, labels=None):
     elif res["exit"] != 0:
         vio.append(violation(PROP, "a", "exit-status:%s" % (res["exit"],),
                              "exit status %r, stderr %r  [argv=%r]" % (res["exit"], res["stderr"][:160], case_argv)))
+    if res.get("main_returned") not in (None, 0) and not vio:
+        vio.append(violation(PROP, "a", "main-returns-nonzero",
+                             "main() returned %r, which the installed console script (sys.exit(main())) turns into a non-zero exit status / a message on stderr [argv=%r]"
+                             % (res.get("main_returned"), case_argv)))
     if res["stderr"] and not vio:
         vio.append(violation(PROP, "a", "stderr-not-empty", "stderr: %r  [argv=%r]" % (res["stderr"][:200], case_argv)))
     if vio or case["informational"]:
